@@ -17,6 +17,8 @@ pub struct Scenario {
     pub key_opts: KeyOpts,
     pub max_depth: usize,
     pub track: bool,
+    /// hash-iteration order under which the whole exploration runs (None = sorted)
+    pub order: Option<melda::verif_hooks::order::Mode>,
 }
 
 impl Scenario {
@@ -32,6 +34,7 @@ impl Scenario {
             "docs": self.menu.docs,
             "infos": self.menu.infos,
             "max_depth": self.max_depth,
+            "hash_iteration_order": format!("{:?}", self.order),
         })
     }
 }
@@ -191,6 +194,8 @@ struct TaskOut {
 
 fn expand(sc: &Scenario, probes: &[Arc<dyn Probe>], hist: &[Op], leaf: bool) -> TaskOut {
     note_ctx(&hist_str(hist));
+    // (thread-local: with a rayon pool of size 1 all work of this task runs on this thread)
+    melda::verif_hooks::order::set_thread_source(sc.order.clone().map(melda::verif_hooks::order::Source::new));
     let mut cx = Cx::default();
     for p in probes {
         p.on_state(sc, hist, &mut cx);
@@ -262,7 +267,9 @@ impl Explorer {
         // initial state
         let init_hist = sc.prologue.clone();
         {
+            melda::verif_hooks::order::set_thread_source(sc.order.clone().map(melda::verif_hooks::order::Source::new));
             let w = sc.build(&init_hist);
+            melda::verif_hooks::order::set_thread_source(None);
             seen.insert(w.key(&sc.key_opts));
         }
         let mut frontier: Vec<Vec<Op>> = vec![init_hist];
